@@ -29,13 +29,17 @@ LEVEL_TEXT = (
     'the freeing of bandwidth when a transfer is cancelled / interrupted / closed at any '
     'activation boundary.')
 TECHNIQUE = 'runtime monitoring: logged completion times vs exact Fraction fluid model, signal injection at activation boundaries'
-ASSUMPTIONS = ['relative tolerance 1e-9 for float rounding (observed error ~5e-16)']
+ASSUMPTIONS = [
+    'the sum of the limits of the transfers in flight is a finite float (two transfers limited '
+    'to sys.float_info.max each make the unchanged pipe divide by zero - not generated)','relative tolerance 1e-9 for float rounding (observed error ~5e-16)']
 REQUIRED_STATS = ['completions_checked', 'overlapping_runs', 'signals_landed', 'struck:cancel',
                   'struck:interrupt', 'struck:close']
 
 VOLUMES = [0, 0.125, 0.5, 1, 1, 2, 3, 5, 8, 16, 64]
 # huge finite limits (practically unlimited) swamp the others in float sums: 2**60, 1e17
-LIMITS = [None, None, None, 0.25, 0.5, 1, 2, 4, 16, 'inf', 2.0 ** 60, 1e17]
+LIMITS = [None, None, None, 0.25, 0.5, 1, 2, 4, 16, 'inf', 2.0 ** 60, 1e17,
+          # "no limit" spelled as the largest float there is
+          1.7976931348623157e308]
 OFFSETS = [0, 0, 0, 0.5, 1, 1, 2, 3]
 
 
@@ -56,6 +60,15 @@ def make_case(seed, index, tier):
         # a background load: a transfer of infinite volume that runs until it is interrupted
         users.append({'name': 'bg', 'until': rng.choice([0.5, 1, 2, 3, 5]),
                       'rounds': [[rng.choice(OFFSETS), 'inf', rng.choice([None, 0.5, 1, 4])]]})
+    # (at most one transfer per scenario uses the largest float as its limit: with two of them
+    # the *sum* of the limits is no float any more - beyond the arithmetic the statement assumes)
+    seen_largest = False
+    for user in users:
+        for round_ in user['rounds']:
+            if round_[2] == LIMITS[-1]:
+                if seen_largest:
+                    round_[2] = 2.0 ** 60
+                seen_largest = True
     scenario = {'throughput': throughput, 'users': users}
     if index % 20 == 9:
         # a near-tie that is *not* a matter of rounding: a transfer that has a real remainder
@@ -79,8 +92,11 @@ def make_case(seed, index, tier):
         micro = 1e-15
         scenario['throughput'] = throughput * micro
         for user in users:
+            # (the largest float becomes an ordinary huge limit: 1e293 times the throughput
+            # makes every other share underflow to nothing)
             user['rounds'] = [[offset, volume if volume == 'inf' else volume * micro,
-                               limit if limit in (None, 'inf') else limit * micro]
+                               limit if limit in (None, 'inf') else
+                               (2.0 ** 60 if limit == LIMITS[-1] else limit) * micro]
                               for offset, volume, limit in user['rounds']]
         scenario.pop('other_pipe', None)
     return {'seed': seed, 'index': index, 'tier': tier, 'scenario': scenario}
@@ -113,7 +129,10 @@ class PipeChecker:
             self.violation('subscriptions-vs-inflight',
                            'pipe has %d subscriptions at the end of time step %r but %d '
                            'transfers are in flight' % (len(subs), prev_time, self.inflight))
-        flow = sum(subs.values()) * pipe._throughput_scale
+        scale = getattr(pipe, '_throughput_scale', None)
+        if scale is None:
+            return      # (private bookkeeping of another shape: only the public behaviour counts)
+        flow = sum(subs.values()) * scale
         if flow > pipe.throughput * (1 + 1e-12):
             self.violation('flow-exceeds-throughput',
                            'combined flow %r exceeds throughput %r' % (flow, pipe.throughput))
